@@ -42,6 +42,12 @@ M = {
     "seeded3_allclose": (SCIPY, "            diff = (y2 - y1) / y1 if rel_norm else y2 - y1\n            if np.linalg.norm(diff, ord=2) < tolerance:\n",
                          "            converged = (\n                np.allclose(y2, y1, rtol=tolerance, atol=0.0)\n                if rel_norm\n"
                          "                else np.allclose(y2, y1, atol=tolerance)\n            )\n            if converged:\n"),
+    # closing round (seeded changes C15-7 / C15-9): model changes between runs on ONE Simulator, names of the reported state
+    "steady_skipfirst_true": (SIM, "            skipfirst=False,\n", "            skipfirst=True,\n"),
+    "labels_sorted": (SIM, "columns=self.model.get_variable_names(),", "columns=sorted(self.model.get_variable_names()),"),
+    "update_parameter_ignored": (SIM, "        self.model.update_parameter(parameter, value)\n", "        pass\n"),
+    "shift_not_added": (SIM, "                    time += self._time_shift\n", "                    pass\n"),
+    "y0_values_in_key_order": (SIM, "tuple(y0[k] for k in self.model.get_variable_names()),", "tuple(y0.values()),"),
 }
 name = os.environ.get("MUTNAME", "")
 if name not in M:
